@@ -23,6 +23,9 @@ let handle = function
     hex_of_bytes (Framing.frame_new (n_of_int (int_of_string tag)) (ns_of ks) (cls_of cls) (bytes_of_hex body))
   | ["frame_old"; tag; lt; body] ->
     hex_of_bytes (Framing.frame_old (n_of_int (int_of_string tag)) (n_of_int (int_of_string lt)) (bytes_of_hex body))
+  | ["enc_len"; n] -> hex_of_bytes (Framing.enc_new_len (n_of_int (int_of_string n)))
+  | ["enc_hdr_new"; tag; n] -> hex_of_bytes (Framing.enc_header_new (n_of_int (int_of_string tag)) (n_of_int (int_of_string n)))
+  | ["enc_hdr_old"; tag; n] -> hex_of_bytes (Framing.enc_header_old (n_of_int (int_of_string tag)) (n_of_int (int_of_string n)))
   | ["emit_lit"; k; data] ->
     hex_of_bytes (Framing.emit_partial (n_of_int 11) (n_of_int (int_of_string k)) lit_h (bytes_of_hex data))
   | ["emit_lit_fixed"; _; data] ->
